@@ -436,6 +436,12 @@ func (e *Env) call(x *ECall) Val {
 		}
 		alloc0 := e.m().allocNow(e.g.entry)
 		return Val{T: fmt.Sprintf("(forall ((fr Int)) (! (=> (< (root fr) %s) (= (select %s fr) (select %s fr))) :pattern ((select %s fr))))", alloc0, b, a, b), Ty: tBool}
+	case "boxed":
+		v := e.eval(x.Args[0])
+		if v.Addr {
+			e.fail("boxed() of a struct in memory is not supported")
+		}
+		return Val{T: e.m().mkIface(v.Ty, v.T), Ty: types.NewInterfaceType(nil, nil)}
 	case "same":
 		// same(a, b): struct values equal field by field (also usable on addresses)
 		a, b := e.eval(x.Args[0]), e.eval(x.Args[1])
@@ -500,7 +506,7 @@ func (e *Env) call(x *ECall) Val {
 		if ty == nil {
 			e.fail("unknown type %s", s.V)
 		}
-		return Val{T: Eq(App("dyntype", v.T), e.m().typeTag(ty)), Ty: tBool}
+		return Val{T: And(Not(Eq(v.T, "0")), Eq(App("dyntype", v.T), e.m().typeTag(ty))), Ty: tBool}
 	}
 	if d, ok := e.g.specs.Defines[x.Fn]; ok {
 		if len(d.Params) != len(x.Args) {
